@@ -169,6 +169,14 @@ After /repo 5633eae (numpy() of string tensors = object array): DeduplicateHashe
   the former NUL-padded view, is no longer used by the check), the alternatives are gone, finding deduph-string-pointer-hash
   = fixed, witness corpus/C05/fixed-deduph-string-pointer-hash.json.  Speed: the case files of a stream are evaluated by coqc
   in the background (at most 3 coqc at a time) while the Python side runs the next stream; generated stream in three parts.
+Round 5 seeded changes: r5m1 caught.  r5m2 (Cloner.clone_node drops the overload of a cloned call): template (i) = IR 10
+  function overloads (same domain/name, different overload, different bodies) called from inside an inlined body; the
+  evaluators ignore overloads, so every proto is DE-OVERLOADED for execution (deoverload: f:ov -> f__ov_<ov>, the same model
+  by the definition of overloads).  r5m3 (InlinePass merges the function's opset imports into a COPY of the model's table):
+  template (j) = a function using ai.onnx.ml which only the function imports (spec function_domains_not_imported); Opsets.v
+  models the merge (merge_imports, C05_inline_merges_opset_imports: old and function-table domains keep their versions) and
+  every inline step checks inline_opsets_okb in Coq (old table is a prefix, additions come from function tables, every node
+  of the resulting main graph has an import).
 Wall time: quick ~60-110 s under load (40 specs x (22 single passes + 5 sequences) + corpus), thorough ~9-12 min (400 specs).
 """
 
@@ -688,7 +696,7 @@ def run_case(spec: dict, passes: list[str], conv_steps: bool = True):
             st.pass_name = name
             st.before, info = conv.model(m)
             st.base = conv.next_v
-            st.ops_before = opset_tables(m) if name == "rmopset" else None
+            st.ops_before = opset_tables(m) if name in ("rmopset", "inline") else None
             st.process_functions = bool(getattr(p, "process_functions", True))
             try:
                 info.pop("cond", None)
@@ -707,7 +715,7 @@ def run_case(spec: dict, passes: list[str], conv_steps: bool = True):
             break
         if st is not None:
             st.after, _ = conv.model(m)
-            st.ops_after = opset_tables(m) if name == "rmopset" else None
+            st.ops_after = opset_tables(m) if name in ("rmopset", "inline") else None
             steps.append(st)
         try:
             protos.append(ir.serde.serialize_model(m))
@@ -726,7 +734,11 @@ def steps_to_coq(steps: list[Step]) -> str:
         c = getattr(st, "cond", None)
         conds.append(c.replace("BEFORE", f"b{k}") if c else "true")
         if st.kind == "model" and st.pass_name == "inline":
-            flags.append(f"model_agree_deep 12 {st.base} {st.expr.replace('BEFORE', f'b{k}')} a{k}")
+            fl = f"model_agree_deep 12 {st.base} {st.expr.replace('BEFORE', f'b{k}')} a{k}"
+            if getattr(st, "ops_before", None) and getattr(st, "ops_after", None):
+                # the model's opset table after inlining: old entries kept, additions from function tables, main graph covered
+                fl = f"(if {fl} then inline_opsets_okb {FUEL} (mkO b{k} {st.ops_before}) (mkO a{k} {st.ops_after}) else false)"
+            flags.append(fl)
         elif st.kind == "model":
             flags.append(f"model_agree {st.base} {st.expr.replace('BEFORE', f'b{k}')} a{k}")
         elif st.kind == "frame" and st.pass_name == "rmopset" and getattr(st, "ops_before", None) and getattr(st, "ops_after", None):
@@ -840,6 +852,34 @@ def io_signature(mp):
     return ins, len(mp.graph.output)
 
 
+def deoverload(mp):
+    """The evaluators ignore FunctionProto.overload / NodeProto.overload (IR 10): for EXECUTION every function f:ov and every
+    call of it is renamed to f__ov_<ov> with an empty overload — the same model by the definition of overloads."""
+    import onnx
+    if not any(f.overload for f in mp.functions):
+        return mp
+    mp = onnx.ModelProto.FromString(mp.SerializeToString())
+    ids = {(f.domain, f.name, f.overload) for f in mp.functions}
+
+    def fix_nodes(nodes):
+        for n in nodes:
+            if n.overload and (n.domain, n.op_type, n.overload) in ids:
+                n.op_type, n.overload = f"{n.op_type}__ov_{n.overload}", ""
+            for a in n.attribute:
+                if a.type == onnx.AttributeProto.GRAPH:
+                    fix_nodes(a.g.node)
+                elif a.type == onnx.AttributeProto.GRAPHS:
+                    for g in a.graphs:
+                        fix_nodes(g.node)
+    fix_nodes(mp.graph.node)
+    for f in mp.functions:
+        fix_nodes(f.node)
+    for f in mp.functions:
+        if f.overload:
+            f.name, f.overload = f"{f.name}__ov_{f.overload}", ""
+    return mp
+
+
 def oracle(spec: dict, passes: list[str], seed: int, protos=None, raised=None, use_ort: bool = True) -> tuple[list[str], dict]:
     """The property, on the implementation: returns (failures, info).  info['valid'] False = case outside the quantifier."""
     import onnx
@@ -858,7 +898,9 @@ def oracle(spec: dict, passes: list[str], seed: int, protos=None, raised=None, u
     if nib and seed % 2 == 0 and all(len(G.initbacked_inputs(mp)) == nib for mp in protos[1:]) and spec.get("judge") != "ort":
         ov = G.override_vals(mp0, seed)
         info["overrides"] = nib
-    run_exec = ort_run if spec.get("judge") == "ort" else (lambda mp, vals: G.run_ref(mp, vals, ov))
+    _ort_run = ort_run
+    ort_run_x = lambda mp, *a: _ort_run(deoverload(mp), *a)  # noqa: E731
+    run_exec = (lambda mp, vals: ort_run_x(mp, vals)) if spec.get("judge") == "ort" else (lambda mp, vals: G.run_ref(deoverload(mp), vals, ov))
     try:
         vals = G.feeds_for(mp0, seed)
         ref0 = run_exec(mp0, vals)
@@ -885,7 +927,7 @@ def oracle(spec: dict, passes: list[str], seed: int, protos=None, raised=None, u
                 # the reference evaluator cannot call a function with trailing optional inputs omitted (legal ONNX, what
                 # trailing-input trimming produces): let onnxruntime judge this step
                 try:
-                    o0, o1 = ort_run(mp0, vals, ov), ort_run(mp, vals, ov)
+                    o0, o1 = ort_run_x(mp0, vals, ov), ort_run_x(mp, vals, ov)
                     if len(o0) == len(o1) and all(G.same_value(a, b) for a, b in zip(o0, o1)):
                         info["judge_fallback"] = "onnxruntime"
                         continue
@@ -910,12 +952,12 @@ def oracle(spec: dict, passes: list[str], seed: int, protos=None, raised=None, u
             bad.append(f"pass-raised: step {i} {name}: {et}({cause}): {msg[:160]}")
     if use_ort and not bad and len(protos) > 1:
         try:
-            o0 = ort_run(mp0, vals, ov)
+            o0 = ort_run_x(mp0, vals, ov)
         except Exception:  # noqa: BLE001
             info["ort"] = "rejects-before"
             return bad, info
         try:
-            o1 = ort_run(protos[-1], vals, ov)
+            o1 = ort_run_x(protos[-1], vals, ov)
         except Exception as e:  # noqa: BLE001
             info["ort"] = "rejects-after"
             info["ort_error"] = str(e)[:200]
@@ -1440,6 +1482,37 @@ def targeted_cases(rng, n: int):
         cases.append(({"opset": 18, "inputs": [["x0", "F2"]], "inits": [], "functions": [fh], "nodes": hn, "judge": "ort",
                        "outputs": [[hn[-1]["outs"][0], "F2"], ["h0", "F2"]]},
                       rng.choice([["inline"], ["inline", "cse"], ["inline", "liftall"], ["rmfunc", "inline"]]), rng.randrange(1 << 30)))
+        # (i) IR 10 function overloads: a call of one overload from INSIDE a function body that gets inlined; with and without
+        #     a second overload (other body) of the same (domain, name)
+        ov = rng.choice(["by3", "v2"])
+        k3, k2 = rng.choice([3.0, 5.0]), rng.choice([2.0, -1.0])
+        sc = lambda o, k: {"name": "Scale", "dom": "local", "overload": o, "ins": ["a"], "outs": ["r"], "attrs": [], "defaults": {},  # noqa: E731
+                           "opsets": [["", 18]],
+                           "nodes": [N("Constant", [], ["kc"], value=["t", ["F", [k]]]), N("Mul", ["a", "kc"], ["r"])]}
+        call = dict(N("Scale", ["a"], ["t0"], dom="local"), overload=ov)
+        fo = {"name": "Fo", "dom": "local", "ins": ["a"], "outs": ["r"], "attrs": [], "defaults": {}, "nodes": [call, N("Add", ["t0", "a"], ["r"])]}
+        ofns = [sc(ov, k3), fo]
+        if rng.random() < 0.6:
+            ofns.insert(rng.choice([0, 1]), sc("", k2))
+        onodes = [N("Fo", ["x0"], ["y"], dom="local")]
+        oouts = [["y", "F2"]]
+        if rng.random() < 0.4:
+            onodes.append(dict(N("Scale", ["y"], ["y2"], dom="local"), overload=ov))      # an overloaded call in the main graph too
+            oouts.append(["y2", "F2"])
+        cases.append(({"opset": 18, "ir_version": 10, "inputs": [["x0", "F2"]], "inits": [], "functions": ofns, "nodes": onodes, "outputs": oouts},
+                      rng.choice([["inline"], ["inline", "rmfunc"], ["rmfunc"], ["rmfunc", "inline"], ["inline", "dce", "rmfunc"]]),
+                      rng.randrange(1 << 30)))
+        # (j) a function that uses an operator domain (ai.onnx.ml) which only the function imports, not the model
+        gate = {"name": "Gate", "dom": "local", "ins": ["a"], "outs": ["r"], "attrs": [], "defaults": {},
+                "opsets": [["", 18], ["ai.onnx.ml", 3]],
+                "nodes": [N("Binarizer", ["a"], ["b"], dom="ai.onnx.ml", threshold=["f", rng.choice([0.5, 0.0, 1.5])]), N("Mul", ["b", "a"], ["r"])]}
+        jn = [N(un, ["x0"], ["h"]), N("Gate", ["h"], ["y"], dom="local")]
+        if rng.random() < 0.4:
+            jn.append(N("Gate", ["y"], ["y2"], dom="local"))
+        cases.append(({"opset": 18, "inputs": [["x0", "F2"]], "inits": [], "functions": [gate], "nodes": jn,
+                       "outputs": [[jn[-1]["outs"][0], "F2"]], "function_domains_not_imported": True, "domain_versions": {"ai.onnx.ml": 3}},
+                      rng.choice([["inline"], ["inline", "rmopset"], ["inline", "rmfunc", "dce", "rmopset"], ["rmopset", "inline"], ["inline", "cse"]]),
+                      rng.randrange(1 << 30)))
     return cases
 
 
